@@ -1,6 +1,6 @@
 (* C09: the emitted boost::sml table is the input table, row by row; hooks exactly once per state. *)
 From Coq Require Import String Ascii List Bool Arith Lia.
-From KV Require Import Lib.TableDef Model.TTable Gen.SmlTmpl Model.SmlTT Proofs.TTableProofs.
+From KV Require Import Lib.TableDef Model.TTable Gen.SmlTmpl Model.SmlTT Proofs.TTableProofs Proofs.TTableSigProofs.
 Import ListNotations.
 Open Scope string_scope.
 
